@@ -68,4 +68,19 @@ CHECKS['C13'] = hist_check('C13', 'Histories with Database::vacuum() at random p
                            ' and VACUUM', 1000, 20000)
 CHECKS['C13']['min_counters'] = {'quick': {'steps.vacuum': 200}, 'thorough': {'steps.vacuum': 3000}}
 
+CHECKS['C12'] = {
+    'level': 'exploration',
+    'rule': 'one generated history (multi-row inserts of 20-400 byte rows, aggregate / filtered / ordered reads, checkpoints) is run under the default configuration and under '
+            'configurations drawn from page {4,8,16,32,64} KiB x cache {24,48,128,1024,10000} x pool {1,2,8} x min_keys {3,4,6} x siblings {1,2,3}; outcomes are compared statement by statement '
+            '(and with the reference model). Non-trivial = every (history, configuration) pair; distinct = hash of the pair. The I/O tap counts data-file writes per run, so the evidence shows in how many runs eviction/write-back happened.',
+    'legs': {'quick': [{'flavour': 'prod', 'shards': 16}], 'thorough': [{'flavour': 'prod', 'shards': 16}]},
+    'min_evaluations': {'quick': 500, 'thorough': 15000},
+    'min_counters': {'quick': {'runs_with_more_datafile_writes_than_default(eviction)': 50}, 'thorough': {'runs_with_more_datafile_writes_than_default(eviction)': 1000}},
+    'assumptions': EXPLORATION_ASSUMPTIONS + ['histories contain no DELETE on multi-page tables (open finding: crash, corpus/C10)'],
+    'technique': 'differential runtime monitor across configurations (same seeded history, statement-by-statement outcome equality, reference model, I/O tap counting write-backs)',
+    'level_text': 'Each generated history is executed under 5 (quick) / 9 (thorough) configurations of the documented ranges; every statement outcome must be identical across configurations and equal to the model, '
+                  'the only permitted difference being an explicit out-of-memory error of a small cache (which ends that run). Sampling over histories and configurations.',
+    'level_note': 'Trusts the model; an OOM-class error text is accepted as the permitted difference; eviction is evidenced by the I/O tap, not assumed.',
+}
+
 NOT_APPLICABLE = [{'property_id': c, 'reason': 'check not built yet in this session (work in progress, see DESIGN.md)'} for c in ALL if c not in CHECKS]
